@@ -146,6 +146,8 @@ pub fn probes(profile: Profile, versions: &BTreeSet<u64>) -> Vec<(String, Search
     }
     req(r)
   };
+  // which documents are live, and their stored fields
+  out.push(("stored: match_all".into(), req(json!({"query": {"type": "match_all"}, "limit": 10000, "return_stored": true}))));
   for w in ["alpha", "beta", "gamma", "delta", "omega", "sigma"] {
     out.push((format!("term body:{}", w), base(json!({"type":"term","field":"body","value":w}), None)));
   }
@@ -257,7 +259,12 @@ pub fn run_probes(index: &Index, battery: &[(String, SearchRequest)]) -> Result<
     for (label, r) in battery {
       let res = match reader.search(r) {
         Ok(res) => {
-          let mut ids: Vec<String> = res.hits.iter().map(|h| h.doc_id.clone()).collect();
+          let with_stored = label.starts_with("stored:");
+          let mut ids: Vec<String> = res
+            .hits
+            .iter()
+            .map(|h| if with_stored { format!("{} {}", h.doc_id, h.fields.as_ref().map(|f| f.to_string()).unwrap_or_default()) } else { h.doc_id.clone() })
+            .collect();
           ids.sort();
           Ok(ids)
         }
@@ -341,6 +348,7 @@ pub fn run_case(case: &ModelCase, wroot: &Path, flavour: Flavour, stats: &mut St
   used_roots.insert("data.bak".to_string());
   let mut generation = 0usize;
   let mut relocated = false;
+  let mut c14_differential_only = false;
   let mut original_listing: Option<(PathBuf, BTreeMap<PathBuf, Vec<u8>>)> = None;
   let mut session = match Session::create(cfg, &root, fs.clone()) {
     Ok(s) => s,
@@ -706,9 +714,26 @@ pub fn run_case(case: &ModelCase, wroot: &Path, flavour: Flavour, stats: &mut St
       }
       p
     };
+    if c14_differential_only {
+      // (C14 flavour after a violation that is not C14's own: the model no longer
+      // describes this tree; the before/after differential around compactions
+      // still judges what compaction does)
+      continue;
+    }
     match session.observe() {
       Ok(obs) => match obs.to_contents() {
         Ok(c) => {
+          if c != model.committed && flavour == Flavour::C14 && !matches!(op, Op::Compact) {
+            out.violations.push(Violation::new(
+              &["C04"],
+              "contents-mismatch",
+              op.kind(),
+              step,
+              format!("after {}: {}", op.short(), diff_contents(&model.committed, &c)),
+            ));
+            c14_differential_only = true;
+            continue;
+          }
           if c != model.committed {
             violate!(
               &props,
@@ -730,7 +755,11 @@ pub fn run_case(case: &ModelCase, wroot: &Path, flavour: Flavour, stats: &mut St
       },
       Err(o) => violate!(&props, "read-failed", op.kind(), step, format!("reader/search after {} -> {}", op.short(), o.short())),
     }
-    if !out.violations.is_empty() {
+    if !out.violations.is_empty() && !c14_differential_only {
+      verif::fs::unmount(wroot);
+      return out;
+    }
+    if c14_differential_only && out.violations.iter().any(|v| v.properties.contains(&"C14")) {
       verif::fs::unmount(wroot);
       return out;
     }
